@@ -6,6 +6,7 @@ contains all of it.  Property theorems only.
 -/
 import VaxisModel.Props.C20Ext
 import VaxisModel.Lemmas.Placements
+import VaxisModel.Props.C20Term
 
 namespace VaxisModel.Props.C20Compose
 open VaxisModel.Model.ImageDraw VaxisModel.Model.Placements VaxisModel.Spec.Images VaxisModel.Gen.ImageConsts
@@ -69,5 +70,63 @@ example : outputs init ([AOp.drawImg kittyGates true false 1 2 1 (Win.new (.root
 /-- …and a 4×4 image into the same window is not: nothing is transmitted (F120 repaired). -/
 example : outputs init ([AOp.drawImg kittyGates true false 1 4 4 (Win.new (.root 0 0 10 10) 5 5 2 2), AOp.render].flatMap lower) =
     [([], [])] := by decide
+
+/-! ## Round 4: down to the terminal -/
+
+open VaxisModel.Model.KittyTerm VaxisModel.Lemmas.KittyTerm in
+/-- **What the terminal shows lies inside the windows it was drawn into** (composition of the terminal refinement
+    `C20Term.terminal_table_is_last_frame` with the `Draw` gates and C11's window geometry): for every history of
+    `Draw`s of kitty images into arbitrary windows (any gate list with the size test, any size, any state), `Clear`s,
+    `Render`s and `Refresh`es from start-up whose frames are key-functional, at every point every placement in the
+    TERMINAL's table — after all deletes and placements applied in the order emitted — was recorded by a `Draw` of the
+    history at the origin of a window that is at least as large, and every screen cell it covers is in that window's
+    own rectangle. -/
+theorem terminal_placements_inside (aops : List AOp)
+    (hg : ∀ gates hd enc id iw ih win, AOp.drawImg gates hd enc id iw ih win ∈ aops → sizeTest ∈ gates)
+    (hk : FramesKeyFun [] (aops.flatMap lowerW)) :
+    ∀ k q, (World.init.run (aops.flatMap lowerW)).term.places k = some q →
+      ∃ gates hd enc win, AOp.drawImg gates hd enc q.id q.w q.h win ∈ aops ∧
+        q.col = (win.origin).1 ∧ q.row = (win.origin).2 ∧ placementInside q.w q.h win ∧
+        ∀ x y, placementCovers q.w q.h (x - q.col) (y - q.row) → inOwnRect win x y := by
+  let Good : Placement → Prop := fun q =>
+    ∃ gates hd enc win, AOp.drawImg gates hd enc q.id q.w q.h win ∈ aops ∧
+      q.col = (win.origin).1 ∧ q.row = (win.origin).2 ∧ placementInside q.w q.h win ∧
+      ∀ x y, placementCovers q.w q.h (x - q.col) (y - q.row) → inOwnRect win x y
+  have hdraw : ∀ p, WOp.draw p ∈ aops.flatMap lowerW → Good p := by
+    intro p hp
+    obtain ⟨a, ha, hpa⟩ := List.mem_flatMap.mp hp
+    cases a with
+    | drawImg gates hd enc id iw ih win =>
+      simp only [lowerW] at hpa
+      by_cases hdr : drawnWith gates hd enc iw ih win = true
+      · rw [if_pos hdr] at hpa
+        have : p = ⟨id, (win.origin).1, (win.origin).2, iw, ih⟩ := by simpa using hpa
+        subst this
+        have hm := hg gates hd enc id iw ih win ha
+        obtain ⟨hin, hcells⟩ := size_gate_inside gates hm hd enc iw ih win hdr
+        refine ⟨gates, hd, enc, win, ha, rfl, rfl, hin, ?_⟩
+        intro x y hc
+        obtain ⟨h1, h2, h3, h4⟩ := hc
+        obtain ⟨hw, hh⟩ := hin
+        unfold inOwnRect
+        rw [← VaxisModel.Lemmas.Window.origin_eq_absOrigin]
+        simp only at h1 h2 h3 h4
+        refine ⟨by omega, by omega, by omega, by omega⟩
+      · rw [if_neg hdr] at hpa
+        cases hpa
+    | clear => simp [lowerW] at hpa
+    | render => simp [lowerW] at hpa
+    | refresh => simp [lowerW] at hpa
+  intro k q hq
+  rw [VaxisModel.Props.C20Term.terminal_table_is_last_frame _ hk k] at hq
+  have hmem := (tableOf_some_mem hq).1
+  exact (lists_good Good (aops.flatMap lowerW) World.init (by intro p hp; cases hp) (by intro p hp; cases hp) hdraw).2 q hmem
+
+open VaxisModel.Model.KittyTerm in
+/-- Non-vacuity: a 2×1 kitty image drawn into a 2×2 window at (5,5) and rendered is on the terminal; a 4×4 one is not. -/
+example :
+    (World.init.run ([AOp.drawImg kittyGates true false 1 2 1 (Win.new (.root 0 0 10 10) 5 5 2 2), AOp.render].flatMap lowerW)).term.places (1, 5, 5) = some ⟨1, 5, 5, 2, 1⟩ ∧
+    (World.init.run ([AOp.drawImg kittyGates true false 1 4 4 (Win.new (.root 0 0 10 10) 5 5 2 2), AOp.render].flatMap lowerW)).term.places (1, 5, 5) = none := by
+  constructor <;> decide
 
 end VaxisModel.Props.C20Compose
